@@ -316,6 +316,7 @@ func checks() map[string]*Check {
 			{Scen: "w2.members", Quick: 64, Thorough: 2000},
 			{Scen: "w2.members", Params: "voters=1", Quick: 8, Thorough: 200},
 			{Scen: "w2.members", Params: "voters=4,snapshots=1", Quick: 16, Thorough: 400},
+			{Scen: "w2.cfgdiscard", Params: "snapshots=1,snapthr=4", Quick: 8, Thorough: 200},
 			{Scen: "w2.memberlag", Quick: 12, Thorough: 200},
 			{Scen: "w2.removeadd", Quick: 24, Thorough: 600},
 			{Scen: "w2.promotesplit", Quick: 24, Thorough: 600},
